@@ -315,74 +315,13 @@ func (p *Parser) parseOuterTemplate() ([]Node, error) {
 
 // Parse an expression
 func (p *Parser) parseExpression() (Node, error) {
-	// Parse the primary expression first
-	expr, err := p.parseSimpleExpression()
+	// Binary operators by precedence climbing, lowest level first
+	expr, err := p.parseBinaryLevel(PREC_OR)
 	if err != nil {
 		return nil, err
 	}
 
-	// Check for array access with square brackets
-	for p.tokenIndex < len(p.tokens) &&
-		p.tokens[p.tokenIndex].Type == TOKEN_PUNCTUATION &&
-		p.tokens[p.tokenIndex].Value == "[" {
-
-		// Get the line number for error reporting
-		line := p.tokens[p.tokenIndex].Line
-
-		// Skip the opening bracket
-		p.tokenIndex++
-
-		// Parse the index expression
-		indexExpr, err := p.parseExpression()
-		if err != nil {
-			return nil, err
-		}
-
-		// Expect closing bracket
-		if p.tokenIndex >= len(p.tokens) ||
-			p.tokens[p.tokenIndex].Type != TOKEN_PUNCTUATION ||
-			p.tokens[p.tokenIndex].Value != "]" {
-			return nil, fmt.Errorf("expected closing bracket after array index at line %d", line)
-		}
-		p.tokenIndex++ // Skip closing bracket
-
-		// Create a GetItemNode
-		expr = NewGetItemNode(expr, indexExpr, line)
-	}
-
-	// Now check for filter operator (|)
-	// Process all filters in a loop to handle consecutive filters properly
-	for p.tokenIndex < len(p.tokens) &&
-		p.tokens[p.tokenIndex].Type == TOKEN_PUNCTUATION &&
-		p.tokens[p.tokenIndex].Value == "|" {
-
-		expr, err = p.parseFilters(expr)
-		if err != nil {
-			return nil, err
-		}
-	}
-
-	// Check for binary operators (and, or, ==, !=, <, >, etc.)
-	// Loop to handle multiple binary operators in sequence, such as 'hello' ~ ' ' ~ 'world'
-	for p.tokenIndex < len(p.tokens) &&
-		(p.tokens[p.tokenIndex].Type == TOKEN_OPERATOR ||
-			(p.tokens[p.tokenIndex].Type == TOKEN_NAME &&
-				(p.tokens[p.tokenIndex].Value == "and" ||
-					p.tokens[p.tokenIndex].Value == "or" ||
-					p.tokens[p.tokenIndex].Value == "in" ||
-					p.tokens[p.tokenIndex].Value == "not" ||
-					p.tokens[p.tokenIndex].Value == "is" ||
-					p.tokens[p.tokenIndex].Value == "matches" ||
-					p.tokens[p.tokenIndex].Value == "starts" ||
-					p.tokens[p.tokenIndex].Value == "ends"))) {
-
-		expr, err = p.parseBinaryExpression(expr)
-		if err != nil {
-			return nil, err
-		}
-	}
-
-	// Check for ternary operator (? :)
+	// Check for ternary operator (? :), which binds weaker than every binary operator
 	if p.tokenIndex < len(p.tokens) &&
 		p.tokens[p.tokenIndex].Type == TOKEN_PUNCTUATION &&
 		p.tokens[p.tokenIndex].Value == "?" {
@@ -391,6 +330,157 @@ func (p *Parser) parseExpression() (Node, error) {
 	}
 
 	return expr, nil
+}
+
+// parseOperand parses one operand of a binary expression: a simple expression
+// followed by any number of postfix operators (index access, filters)
+func (p *Parser) parseOperand() (Node, error) {
+	expr, err := p.parseSimpleExpression()
+	if err != nil {
+		return nil, err
+	}
+
+	for p.tokenIndex < len(p.tokens) && p.tokens[p.tokenIndex].Type == TOKEN_PUNCTUATION {
+		switch p.tokens[p.tokenIndex].Value {
+		case "[":
+			line := p.tokens[p.tokenIndex].Line
+			p.tokenIndex++
+
+			indexExpr, err := p.parseExpression()
+			if err != nil {
+				return nil, err
+			}
+
+			if p.tokenIndex >= len(p.tokens) ||
+				p.tokens[p.tokenIndex].Type != TOKEN_PUNCTUATION ||
+				p.tokens[p.tokenIndex].Value != "]" {
+				return nil, fmt.Errorf("expected closing bracket after array index at line %d", line)
+			}
+			p.tokenIndex++
+
+			expr = NewGetItemNode(expr, indexExpr, line)
+			continue
+
+		case "|":
+			expr, err = p.parseFilters(expr)
+			if err != nil {
+				return nil, err
+			}
+			continue
+		}
+		break
+	}
+
+	return expr, nil
+}
+
+// peekBinaryOperator returns the binary operator at the current position, the number
+// of tokens it spans, and whether there is one
+func (p *Parser) peekBinaryOperator() (string, int, bool) {
+	if p.tokenIndex >= len(p.tokens) {
+		return "", 0, false
+	}
+	token := p.tokens[p.tokenIndex]
+	if token.Type == TOKEN_OPERATOR {
+		return token.Value, 1, true
+	}
+	if token.Type != TOKEN_NAME {
+		return "", 0, false
+	}
+	next := ""
+	if p.tokenIndex+1 < len(p.tokens) && p.tokens[p.tokenIndex+1].Type == TOKEN_NAME {
+		next = p.tokens[p.tokenIndex+1].Value
+	}
+	switch token.Value {
+	case "and", "or", "in", "matches":
+		return token.Value, 1, true
+	case "not":
+		if next == "in" {
+			return "not in", 2, true
+		}
+		if next == "defined" {
+			return "not defined", 2, true
+		}
+		return "not", 1, true
+	case "is":
+		if next == "not" {
+			return "is not", 2, true
+		}
+		return "is", 1, true
+	case "starts":
+		if next == "with" {
+			return "starts with", 2, true
+		}
+		return "starts", 1, true
+	case "ends":
+		if next == "with" {
+			return "ends with", 2, true
+		}
+		return "ends", 1, true
+	}
+	return "", 0, false
+}
+
+// parseBinaryLevel parses a chain of binary operators whose precedence is at least minPrec.
+// Operators of equal precedence group from the left.
+func (p *Parser) parseBinaryLevel(minPrec int) (Node, error) {
+	left, err := p.parseOperand()
+	if err != nil {
+		return nil, err
+	}
+
+	for {
+		operator, width, ok := p.peekBinaryOperator()
+		if !ok {
+			break
+		}
+		line := p.tokens[p.tokenIndex].Line
+
+		if operator == "not defined" {
+			if PREC_COMPARE < minPrec {
+				break
+			}
+			p.tokenIndex += width
+			left = &UnaryNode{
+				ExpressionNode: ExpressionNode{exprType: ExprUnary, line: line},
+				operator:       "not",
+				node: &TestNode{
+					ExpressionNode: ExpressionNode{exprType: ExprTest, line: line},
+					node:           left,
+					test:           "defined",
+					args:           []Node{},
+				},
+			}
+			continue
+		}
+
+		if (operator == "is" || operator == "is not") &&
+			p.tokenIndex+width < len(p.tokens) && p.tokens[p.tokenIndex+width].Type == TOKEN_NAME {
+			if PREC_COMPARE < minPrec {
+				break
+			}
+			p.tokenIndex += width
+			left, err = p.parseTest(left, operator, line)
+			if err != nil {
+				return nil, err
+			}
+			continue
+		}
+
+		precedence := getOperatorPrecedence(operator)
+		if precedence < minPrec {
+			break
+		}
+		p.tokenIndex += width
+
+		right, err := p.parseBinaryLevel(precedence + 1)
+		if err != nil {
+			return nil, err
+		}
+		left = NewBinaryNode(operator, left, right, line)
+	}
+
+	return left, nil
 }
 
 // Parse ternary conditional expression (condition ? true_expr : false_expr)
@@ -649,37 +739,6 @@ func (p *Parser) parseSimpleExpression() (Node, error) {
 		// Handle parenthesized expressions
 		if token.Value == "(" {
 			p.tokenIndex++ // Skip "("
-
-			// Check for unary operator immediately after opening parenthesis
-			if p.tokenIndex < len(p.tokens) &&
-				p.tokens[p.tokenIndex].Type == TOKEN_OPERATOR &&
-				(p.tokens[p.tokenIndex].Value == "-" || p.tokens[p.tokenIndex].Value == "+") {
-
-				// Handle unary operation inside parentheses
-				unaryToken := p.tokens[p.tokenIndex]
-				operator := unaryToken.Value
-				line := unaryToken.Line
-				p.tokenIndex++ // Skip the operator
-
-				// Parse the operand
-				operand, err := p.parseExpression()
-				if err != nil {
-					return nil, err
-				}
-
-				// Create a unary node
-				expr := NewUnaryNode(operator, operand, line)
-
-				// Expect closing parenthesis
-				if p.tokenIndex >= len(p.tokens) ||
-					p.tokens[p.tokenIndex].Type != TOKEN_PUNCTUATION ||
-					p.tokens[p.tokenIndex].Value != ")" {
-					return nil, fmt.Errorf("expected closing parenthesis at line %d", token.Line)
-				}
-				p.tokenIndex++ // Skip ")"
-
-				return expr, nil
-			}
 
 			// Regular parenthesized expression
 			expr, err := p.parseExpression()
@@ -942,231 +1001,64 @@ func getOperatorPrecedence(operator string) int {
 	}
 }
 
-// Parse binary expressions (a + b, a and b, a in b, etc.)
-func (p *Parser) parseBinaryExpression(left Node) (Node, error) {
-	token := p.tokens[p.tokenIndex]
-	operator := token.Value
-	line := token.Line
+// parseTest parses the test that follows 'is' / 'is not' (the test name is the current token)
+func (p *Parser) parseTest(left Node, operator string, line int) (Node, error) {
+	testName := p.tokens[p.tokenIndex].Value
+	p.tokenIndex++ // Skip the test name
 
-	// Special handling for "not defined" pattern
-	// This is the common pattern used in Twig: {% if variable not defined %}
-	if operator == "not" && p.tokenIndex+1 < len(p.tokens) &&
-		p.tokens[p.tokenIndex+1].Type == TOKEN_NAME &&
-		p.tokens[p.tokenIndex+1].Value == "defined" {
+	var args []Node
 
-		// Next token should be "defined"
-		p.tokenIndex += 2 // Skip both "not" and "defined"
+	if p.tokenIndex < len(p.tokens) &&
+		p.tokens[p.tokenIndex].Type == TOKEN_PUNCTUATION &&
+		p.tokens[p.tokenIndex].Value == "(" {
 
-		// Create a TestNode with "defined" test
-		testNode := &TestNode{
-			ExpressionNode: ExpressionNode{
-				exprType: ExprTest,
-				line:     line,
-			},
-			node: left,
-			test: "defined",
-			args: []Node{},
+		p.tokenIndex++ // Skip opening parenthesis
+
+		if p.tokenIndex < len(p.tokens) &&
+			!(p.tokens[p.tokenIndex].Type == TOKEN_PUNCTUATION &&
+				p.tokens[p.tokenIndex].Value == ")") {
+
+			for {
+				argExpr, err := p.parseExpression()
+				if err != nil {
+					return nil, err
+				}
+				args = append(args, argExpr)
+
+				if p.tokenIndex < len(p.tokens) &&
+					p.tokens[p.tokenIndex].Type == TOKEN_PUNCTUATION &&
+					p.tokens[p.tokenIndex].Value == "," {
+					p.tokenIndex++
+					continue
+				}
+				break
+			}
 		}
 
-		// Then wrap it in a unary "not" node
+		if p.tokenIndex >= len(p.tokens) ||
+			p.tokens[p.tokenIndex].Type != TOKEN_PUNCTUATION ||
+			p.tokens[p.tokenIndex].Value != ")" {
+			return nil, fmt.Errorf("expected closing parenthesis after test arguments at line %d", line)
+		}
+		p.tokenIndex++
+	}
+
+	test := &TestNode{
+		ExpressionNode: ExpressionNode{exprType: ExprTest, line: line},
+		node:           left,
+		test:           testName,
+		args:           args,
+	}
+
+	if operator == "is not" {
 		return &UnaryNode{
-			ExpressionNode: ExpressionNode{
-				exprType: ExprUnary,
-				line:     line,
-			},
-			operator: "not",
-			node:     testNode,
+			ExpressionNode: ExpressionNode{exprType: ExprUnary, line: line},
+			operator:       "not",
+			node:           test,
 		}, nil
 	}
 
-	// Process multi-word operators
-	if token.Type == TOKEN_NAME {
-		// Handle 'not in' operator
-		if token.Value == "not" && p.tokenIndex+1 < len(p.tokens) &&
-			p.tokens[p.tokenIndex+1].Type == TOKEN_NAME &&
-			p.tokens[p.tokenIndex+1].Value == "in" {
-			operator = "not in"
-			p.tokenIndex += 2 // Skip both 'not' and 'in'
-		} else if token.Value == "is" && p.tokenIndex+1 < len(p.tokens) &&
-			p.tokens[p.tokenIndex+1].Type == TOKEN_NAME &&
-			p.tokens[p.tokenIndex+1].Value == "not" {
-			// Handle 'is not' operator
-			operator = "is not"
-			p.tokenIndex += 2 // Skip both 'is' and 'not'
-		} else if token.Value == "starts" && p.tokenIndex+1 < len(p.tokens) &&
-			p.tokens[p.tokenIndex+1].Type == TOKEN_NAME &&
-			p.tokens[p.tokenIndex+1].Value == "with" {
-			// Handle 'starts with' operator
-			operator = "starts with"
-			p.tokenIndex += 2 // Skip both 'starts' and 'with'
-		} else if token.Value == "ends" && p.tokenIndex+1 < len(p.tokens) &&
-			p.tokens[p.tokenIndex+1].Type == TOKEN_NAME &&
-			p.tokens[p.tokenIndex+1].Value == "with" {
-			// Handle 'ends with' operator
-			operator = "ends with"
-			p.tokenIndex += 2 // Skip both 'ends' and 'with'
-		} else {
-			// Single word operators like 'is', 'and', 'or', 'in', 'matches'
-			p.tokenIndex++ // Skip the operator token
-		}
-	} else {
-		// Regular operators like +, -, *, /, etc.
-		p.tokenIndex++ // Skip the operator token
-	}
-
-	// Handle 'is' followed by a test
-	if operator == "is" || operator == "is not" {
-		// Check if this is a test
-		if p.tokenIndex < len(p.tokens) && p.tokens[p.tokenIndex].Type == TOKEN_NAME {
-			testName := p.tokens[p.tokenIndex].Value
-			p.tokenIndex++ // Skip the test name
-
-			// Parse test arguments if any
-			var args []Node
-
-			// If there's an opening parenthesis, parse arguments
-			if p.tokenIndex < len(p.tokens) &&
-				p.tokens[p.tokenIndex].Type == TOKEN_PUNCTUATION &&
-				p.tokens[p.tokenIndex].Value == "(" {
-
-				p.tokenIndex++ // Skip opening parenthesis
-
-				// Parse arguments
-				if p.tokenIndex < len(p.tokens) &&
-					!(p.tokens[p.tokenIndex].Type == TOKEN_PUNCTUATION &&
-						p.tokens[p.tokenIndex].Value == ")") {
-
-					for {
-						// Parse each argument expression
-						argExpr, err := p.parseExpression()
-						if err != nil {
-							return nil, err
-						}
-						args = append(args, argExpr)
-
-						// Check for comma separator
-						if p.tokenIndex < len(p.tokens) &&
-							p.tokens[p.tokenIndex].Type == TOKEN_PUNCTUATION &&
-							p.tokens[p.tokenIndex].Value == "," {
-							p.tokenIndex++ // Skip comma
-							continue
-						}
-
-						// No comma, so end of argument list
-						break
-					}
-				}
-
-				// Expect closing parenthesis
-				if p.tokenIndex >= len(p.tokens) ||
-					p.tokens[p.tokenIndex].Type != TOKEN_PUNCTUATION ||
-					p.tokens[p.tokenIndex].Value != ")" {
-					return nil, fmt.Errorf("expected closing parenthesis after test arguments at line %d", line)
-				}
-				p.tokenIndex++ // Skip closing parenthesis
-			}
-
-			// Create the test node
-			test := &TestNode{
-				ExpressionNode: ExpressionNode{
-					exprType: ExprTest,
-					line:     line,
-				},
-				node: left,
-				test: testName,
-				args: args,
-			}
-
-			// If it's a negated test (is not), create a unary 'not' node
-			if operator == "is not" {
-				return &UnaryNode{
-					ExpressionNode: ExpressionNode{
-						exprType: ExprUnary,
-						line:     line,
-					},
-					operator: "not",
-					node:     test,
-				}, nil
-			}
-
-			return test, nil
-		}
-	}
-
-	// If we get here, we have a regular binary operator
-
-	// Get precedence of current operator
-	precedence := getOperatorPrecedence(operator)
-
-	// Parse the right side expression
-	right, err := p.parseSimpleExpression()
-	if err != nil {
-		return nil, err
-	}
-
-	// Create the current binary node
-	binaryNode := NewBinaryNode(operator, left, right, line)
-
-	// Check for another binary operator
-	if p.tokenIndex < len(p.tokens) &&
-		(p.tokens[p.tokenIndex].Type == TOKEN_OPERATOR ||
-			(p.tokens[p.tokenIndex].Type == TOKEN_NAME &&
-				(p.tokens[p.tokenIndex].Value == "and" ||
-					p.tokens[p.tokenIndex].Value == "or" ||
-					p.tokens[p.tokenIndex].Value == "in" ||
-					p.tokens[p.tokenIndex].Value == "not" ||
-					p.tokens[p.tokenIndex].Value == "is" ||
-					p.tokens[p.tokenIndex].Value == "matches" ||
-					p.tokens[p.tokenIndex].Value == "starts" ||
-					p.tokens[p.tokenIndex].Value == "ends"))) {
-
-		// Get the next operator and its precedence
-		nextOperator := p.tokens[p.tokenIndex].Value
-		if p.tokens[p.tokenIndex].Type == TOKEN_NAME {
-			// Handle multi-word operators
-			if nextOperator == "not" && p.tokenIndex+1 < len(p.tokens) &&
-				p.tokens[p.tokenIndex+1].Type == TOKEN_NAME &&
-				p.tokens[p.tokenIndex+1].Value == "in" {
-				nextOperator = "not in"
-			} else if nextOperator == "is" && p.tokenIndex+1 < len(p.tokens) &&
-				p.tokens[p.tokenIndex+1].Type == TOKEN_NAME &&
-				p.tokens[p.tokenIndex+1].Value == "not" {
-				nextOperator = "is not"
-			} else if nextOperator == "starts" && p.tokenIndex+1 < len(p.tokens) &&
-				p.tokens[p.tokenIndex+1].Type == TOKEN_NAME &&
-				p.tokens[p.tokenIndex+1].Value == "with" {
-				nextOperator = "starts with"
-			} else if nextOperator == "ends" && p.tokenIndex+1 < len(p.tokens) &&
-				p.tokens[p.tokenIndex+1].Type == TOKEN_NAME &&
-				p.tokens[p.tokenIndex+1].Value == "with" {
-				nextOperator = "ends with"
-			}
-		}
-
-		nextPrecedence := getOperatorPrecedence(nextOperator)
-
-		// If the next operator has higher precedence, we need to parse it first
-		if nextPrecedence > precedence {
-			// Replace the right side with a binary expression
-			newRight, err := p.parseBinaryExpression(right)
-			if err != nil {
-				return nil, err
-			}
-
-			// Update the binary node with the new right side
-			binaryNode = NewBinaryNode(operator, left, newRight, line)
-		}
-	}
-
-	// Check for ternary operator after parsing the binary expression
-	if p.tokenIndex < len(p.tokens) &&
-		p.tokens[p.tokenIndex].Type == TOKEN_PUNCTUATION &&
-		p.tokens[p.tokenIndex].Value == "?" {
-		// This is a conditional expression, use the binary node as the condition
-		return p.parseConditionalExpression(binaryNode)
-	}
-
-	return binaryNode, nil
+	return test, nil
 }
 
 // parseEndTag handles closing tags like endif, endfor, endblock, etc.
